@@ -237,8 +237,7 @@ def to_model(data_file: typing.IO, _config = None, progress_callback=lambda _: N
     if state in (_State.TEXT, _State.TEXT_MORE):
 
       if line is None or _EMPTY_RE.fullmatch(line):
-        subtitle_text = subtitle_text.strip('\r\n')\
-          .replace(r"\n\r", "\n")\
+        subtitle_text = subtitle_text.replace("\r\n", "\n").strip('\r\n')\
           .replace(r"{bold}", r"<bold>")\
           .replace(r"{/bold}", r"</bold>")\
           .replace(r"{italic}", r"<italic>")\
